@@ -20,6 +20,7 @@ None == "none"
 \* ---- file nodes ----------------------------------------------------------
 StrNode(s)  == [t |-> "str", s |-> s]
 RawNode(v)  == [t |-> "raw", v |-> v]        \* number / true / false / null lexeme
+RawSym(s)   == [t |-> "rawsym", s |-> s]  \* the same, spelled with symbols
 NullNode    == RawNode("null")
 MapNode(e)  == [t |-> "map", e |-> e]        \* e : sequence of <<key string, node>>
 SeqNode(e)  == [t |-> "seq", e |-> e]
